@@ -215,7 +215,11 @@ func (e *env) runConfig(cf *config, reqs []request) {
 		c.Violation("build-failed:"+err.Error(), fmt.Sprintf("valid access lists rejected: %v (%s)", err, jsonStr(cf)), caseC{Conf: *cf})
 		return
 	}
-	defer a.Close()
+	defer func() {
+		// Reconfigure starts the listeners; Close alone would leak them.
+		_ = a.Server.Stop()
+		a.Close()
+	}()
 	c.Count("configs", 1)
 	if cf.Via != "" {
 		nn := func(l []string) []string {
